@@ -16,7 +16,8 @@ use swiftness_stark::types::StarkProof;
 #[derive(Clone, Debug, Serialize, Deserialize, Hash)]
 pub struct EditSpec {
     /// 0 truncate, 1 empty, 2 shift (drop first), 3 extend, 4 delete at, 5 scalar extreme,
-    /// 6 scalar := a length-derived value, 7 toggle dynamic params, 8 consistent re-declaration
+    /// 6 scalar := a length-derived value, 7 toggle dynamic params, 8 consistent re-declaration,
+    /// 9 one structural dynamic parameter (uses_*, *_row_ratio, num_columns_*, cpu_component_step) set to a small/extreme value
     pub kind: u8,
     pub target: u16,
     pub val: u8,
@@ -187,13 +188,34 @@ pub fn apply_script(img: &mut Value, edits: &[EditSpec], dyn_params: Option<&Val
     for (ei, e) in edits.iter().enumerate() {
         let (slots, vecs) = enumerate(img);
         let es = mix(seed, ei as u64);
-        match e.kind % 9 {
+        match e.kind % 10 {
+            9 => {
+                // the dynamic layout's structural parameters (builtin switches, row ratios, step, columns)
+                match img.pointer("/public_input/dynamic_params").and_then(|d| d.as_object()) {
+                    Some(dp) => {
+                        let keys: Vec<String> = dp.keys().filter(|k| k.starts_with("uses_") || k.ends_with("row_ratio") || k.starts_with("num_columns") || k.starts_with("cpu_component")).cloned().collect();
+                        if keys.is_empty() {
+                            continue;
+                        }
+                        let k = &keys[pick(e.target, keys.len())];
+                        let v = [0u64, 1, 2, 3, 4, 8, 16, 2048, 1 << 12, 1 << 20, u64::MAX][e.val as usize % 11];
+                        img["public_input"]["dynamic_params"][k.as_str()] = json!(v);
+                        applied.push(format!("dyn:{}={}", k, v));
+                    }
+                    None => {
+                        if let Some(dp) = dyn_params {
+                            img["public_input"]["dynamic_params"] = dp.clone();
+                            applied.push("add:dynamic_params".into());
+                        }
+                    }
+                }
+            }
             0..=4 => {
                 if vecs.is_empty() {
                     continue;
                 }
                 let v = &vecs[pick(e.target, vecs.len())];
-                let edit = match e.kind % 9 {
+                let edit = match e.kind % 10 {
                     0 => {
                         let len = match e.val % 4 {
                             0 => 0,
@@ -217,7 +239,7 @@ pub fn apply_script(img: &mut Value, edits: &[EditSpec], dyn_params: Option<&Val
                     continue;
                 }
                 let s = &slots[pick(e.target, slots.len())];
-                let val = if e.kind % 9 == 5 {
+                let val = if e.kind % 10 == 5 {
                     match s.kind {
                         SlotKind::Felt => felt_str(&extreme_felt(e.val)),
                         SlotKind::U8 => (extreme_u64(e.val) & 0xff).to_string(),
@@ -351,7 +373,7 @@ pub fn check(env: &Env, c: &Case) -> Outcome {
 
 pub fn strategy() -> impl Strategy<Value = Case> {
     let edit = (
-        prop_oneof![2 => 0u8..5, 3 => 5u8..7, 1 => Just(7u8), 3 => Just(8u8)],
+        prop_oneof![2 => 0u8..5, 3 => 5u8..7, 1 => Just(7u8), 3 => Just(8u8), 2 => Just(9u8)],
         any::<u16>(),
         any::<u8>(),
         any::<u8>(),
